@@ -117,7 +117,7 @@ func runC06(x *mc.X) {
 	switch {
 	case tok == "":
 		why = ""
-	case status == 304 && (pre == "stale" || pre == "stale+swr" || pre == "stale-no-validator"):
+	case status == 304 && (pre == "stale" || pre == "stale+swr" || pre == "stale-no-validator") && !ccs.Has("no-store") && reqKind != "GET+no-store":
 		why = "" // a 304 answering the cache's own validation request freshens the stored response (C08), it is not stored itself
 	case ccs.Has("no-store") || reqKind == "GET+no-store":
 		why = "no-store"
